@@ -246,6 +246,9 @@ def run(ctx):
     r04b(ctx)
     r04c(ctx)
     r04d(ctx)
+    # cloning must preserve the package/manifest agreement: a clone that resurrects deleted parts breaks it (shared rule of C10)
+    from .c10 import r10f
+    r10f(ctx)
 
 
 from ..selftest import Seed, unparse_seed  # noqa: E402
